@@ -17,6 +17,7 @@ type graphOpts struct {
 	MaxMult  int  // edge multiplicity menu {0..MaxMult}
 	Extras   bool // quote / unresolved / external / overload options
 	DistMenu bool
+	Overload bool // the last node always shares the full name of node 0 (a second overload)
 }
 
 type genGraph struct {
@@ -30,7 +31,10 @@ func buildGraph(c *engine.C, o graphOpts) genGraph {
 	n := o.N
 	dist := 0
 	if o.DistMenu {
-		dist = c.Choose(3, "dist")
+		dist = c.Choose(4, "dist")
+		if dist == 3 {
+			c.Tag("default-package")
+		}
 	}
 	quote, unresolved, external, overload := false, false, false, false
 	if o.Extras {
@@ -38,6 +42,9 @@ func buildGraph(c *engine.C, o graphOpts) genGraph {
 		unresolved = c.Bool("unresolved-callee")
 		external = c.Bool("external-callee")
 		overload = n >= 2 && c.Bool("overload")
+	}
+	if o.Overload {
+		overload = true
 	}
 	var g genGraph
 	ms := make([]GMethod, n)
@@ -50,6 +57,9 @@ func buildGraph(c *engine.C, o graphOpts) genGraph {
 			if i%2 == 1 {
 				m.Pkg = "q"
 			}
+		case 3:
+			// sources without a package declaration: every type lives in the default package
+			m.Pkg = ""
 		}
 		if quote && i == 1%n {
 			m.Name = "m\"" + fmt.Sprint(i)
